@@ -161,6 +161,23 @@ pub fn binary(fi: usize, a: u64, b: u64, l: &mut Local) -> Result<(), Viol> {
         }
     };
     if !(f.dom)(x, y) {
+        // outside the range of the stated bound only the qualitative clauses are judged for powf:
+        // a real, comfortably representable true value must come back real, non-zero and with the right sign
+        if f.name == "powf" && x != 0.0 && y != 0.0 {
+            let r = (f.reff)(x, y);
+            if r.is_finite() && r != 0.0 && r.abs() > 1e-30 && r.abs() < 1e30 && y.abs() < 1e9 && x.abs() > 1e-30 && x.abs() < 1e30 {
+                l.eval();
+                l.label("powf_outside_bound_domain(sign/NaR class only)");
+                let got = match guard(|| (f.call)(pa, pb).to_bits() as u64) {
+                    Ok(g) => g,
+                    Err(m) => return Err(Viol::panic(op(), &[a, b], format!("a real value with the sign of {:e}", r), m)),
+                };
+                let gneg = got & 0x8000_0000 != 0;
+                if got == 0x8000_0000 || got == 0 || gneg != (r < 0.0) {
+                    return Err(Viol::wrong_s(format!("{}.sign", op()), &[a, b], format!("a real non-zero value with the sign of {:e}", r), hex(got)));
+                }
+            }
+        }
         return Ok(());
     }
     l.eval();
@@ -233,6 +250,23 @@ pub fn run(rep: &mut Report) {
         rep.lattice(&format!("{}: every {}th of the 2^32 patterns (offset {})", UNARY[fi].name, stride, off), (1u64 << 32) / stride, move |i, l| unary(fi, i * stride + off, l));
         rep.generated(&format!("{}: boundary inputs", UNARY[fi].name), tier.pick(60_000, 1_500_000), boundary_inputs, move |&a, l| unary(fi, a, l));
     }
+    // the posits nearest to every multiple of pi/2 inside the trig range (offsets -1, 0, +1, both signs):
+    // where the three-part reduction constant matters most
+    for fi in 0..3 {
+        rep.lattice(&format!("{}: posits nearest to k*pi/2 for every k < 250 331, offsets -1..=1, both signs", UNARY[fi].name), 250_331 * 6, move |i, l| {
+            let (k, j) = (i / 6, i % 6);
+            let v = (k as f64) * std::f64::consts::FRAC_PI_2;
+            let b = (enc(v) + (j % 3) as i64 - 1) as u64 & 0xffff_ffff;
+            unary(fi, if j >= 3 { b.wrapping_neg() & 0xffff_ffff } else { b }, l)
+        });
+    }
+    // powf with a negative base and integer exponents (sign / NaR class; outside the accuracy domain)
+    rep.generated("powf: negative base, integer and half-integer exponents up to 2^24 (sign / NaR class)", tier.pick(300_000, 3_000_000), || (gen::real_bits(32), 0u64..(1 << 25), any::<bool>(), 0u8..4), |&(a, m, neg, kind), l| {
+        let base = if kind == 3 { (a | 0x8000_0000) & 0xffff_ffff } else { 0xB800_0000 + (a % 0x1000_0000) }; // mostly bases in (-2, -0.5]
+        let yv = match kind { 0 => (m >> 1) as f64, 1 => (m | 1) as f64, 2 => ((m >> 12) | 1) as f64, _ => m as f64 / 2.0 };
+        let yb = enc(if neg { -yv } else { yv }) as u64 & 0xffff_ffff;
+        binary(2, base, yb, l)
+    });
     for fi in 0..BINARY.len() {
         rep.generated(&format!("{}: generated pairs", BINARY[fi].name), tier.pick(3_000_000, 40_000_000), pair_inputs, move |&(a, b), l| binary(fi, a, b, l));
     }
